@@ -10,6 +10,10 @@ NOT_BUILT = "rules designed (DESIGN.md sections 3-4) but not built yet; not clai
 
 # property -> (technique, level text, level note, design ref)
 CLAIMED = {
+ "C05": ("loop classification on the SSA CFG (metering-call-on-every-cycle via must-call summaries, induction/limit analysis), SCCs of the call graph minus metering functions, typed recover inventory with reachability to TerminateContext, def-use checks of the forwarding chain",
+         "Structural necessary conditions: every loop and call cycle reachable from cpu-limited code is metered, bounded by held memory/constants, pre-charged or table-listed; named dispatch points charge first; budgets are plumbed to the quota; termination cannot be kept by any recover frame other than the designated owners, and is forwarded out of coroutines. Breaking any of these makes some operation unmetered or lets Lua code survive a kill.",
+         "Trusted: go/ssa CFGs, VTA call graph, the loop/recursion tables (reasons confirmed by reading). Not decided: exact deterministic counts, 'killed exactly for L <= u', wall-clock bounds.",
+         "DESIGN.md 3 (R-METER, R-KILL), 4 (C05)"),
  "C04": ("SSA dataflow + dominator/must-edge guard proofs (argument arity, string positions, divisors, narrowing, allocation sizes), typed panic/recover reachability and SCC analysis over the VTA call graph",
          "Structural necessary conditions, each flagging a construct that is a Go panic or fatal error for some input: argument reads within declared arity; normalised positions proved in range at every use; guarded integer divisors; every explicit panic below a recover of its type or table-listed as internal; range-checked narrowing in the code generator; no unguarded recursion reachable from the API; computed-size allocations bounded, charged, and (for decoded lengths) compared with the input left. This is the property the family fits best: each clause is visible in the shape of the code on every path.",
          "Trusted: go/types, go/ssa, VTA+CHA over-approximation with callback filtering; tables confirmed by reading (preconditions re-verified each run). Not decided: absence of all Go run-time errors (nil deref, arbitrary indexing); behaviour of the VM on forged bytecode that decodes; OOM from legitimately huge sizes without limits.",
